@@ -12,10 +12,11 @@ PROP = {
  ],
  "bounded": [
   "sig_table",
-  "issue_roundtrip"
+  "issue_roundtrip",
+  "wrap_table"
  ],
  "level": "other",
- "explanation": "SP-side half of C17 under contract: every decrypted assertion that carries a signature has it verified against the decrypted text (decrypt_assertions, loop invariants over both loops); the checks of _assertion (validity window, audience, subject confirmations) are the same code for plain and decrypted assertions and AuthnResponse.verify keeps only assertions that passed them; text no configured key decrypts is returned unchanged by decrypt_keys (so it still holds an EncryptedAssertion and yields no assertion) and encrypt_assertion returns only non-empty tool output, never the clear statement. AuthnResponse.parse_assertion (the two decrypt while-loops) is an ASSUMED contract that verify is checked against. IdP side, one function is under contract: Entity._encrypt_assertion -- when the SP has an encryption certificate (given, or declared in metadata) what it hands back is the non-empty output of the encryption tool, never the response that was passed in; if every certificate fails it raises. (Without any certificate it returns the response unchanged: outside the statement, which speaks of an SP that has a certificate.) The rest of the IdP-side half (no identity data in clear in the emitted bytes, decryptable only with the SP's key) is a statement about what xmlsec1 writes and about Entity._response's string surgery; no contract within reach decides it. BOUNDED (issue_roundtrip, stand-in tool, never counted as proved): for every sign / encrypt / advice / certificate-source combination the text emitted by the real Server.create_authn_response is searched for the subject identifier, attribute names and values of the assertion that was to be encrypted; the intended SP reads it back and an SP configured with another key pair gets no identity from it.",
+ "explanation": "SP-side half of C17 under contract: every decrypted assertion that carries a signature has it verified against the decrypted text (decrypt_assertions, loop invariants over both loops); the checks of _assertion (validity window, audience, subject confirmations) are the same code for plain and decrypted assertions and AuthnResponse.verify keeps only assertions that passed them; text no configured key decrypts is returned unchanged by decrypt_keys (so it still holds an EncryptedAssertion and yields no assertion) and encrypt_assertion returns only non-empty tool output, never the clear statement. AuthnResponse.parse_assertion (the two decrypt while-loops) is an ASSUMED contract that verify is checked against. IdP side, one function is under contract: Entity._encrypt_assertion -- when the SP has an encryption certificate (given, or declared in metadata) what it hands back is the non-empty output of the encryption tool, never the response that was passed in; if every certificate fails it raises. (Without any certificate it returns the response unchanged: outside the statement, which speaks of an SP that has a certificate.) The rest of the IdP-side half (no identity data in clear in the emitted bytes, decryptable only with the SP's key) is a statement about what xmlsec1 writes and about Entity._response's string surgery; no contract within reach decides it. BOUNDED (issue_roundtrip, stand-in tool, never counted as proved): for every sign / encrypt / advice / certificate-source combination the text emitted by the real Server.create_authn_response is searched for the subject identifier, attribute names and values of the assertion that was to be encrypted; the intended SP reads it back and an SP configured with another key pair gets no identity from it. wrap_table (bounded, stand-in tool) applies the C01 signature-wrapping rearrangements INSIDE the ciphertext of an encrypted assertion (open, forge, encrypt again for the same key): the SP must treat the decrypted assertion like a plain one and reject every forgery.",
  "not_decided": [
   "AuthnResponse.parse_assertion body (assumed contract)",
   "Entity._response encryption branches (string surgery on serialised XML; outside the verified subset)",
